@@ -257,6 +257,21 @@ func c13Main(r *run.Runner) {
 			}
 		}
 	})
+	// arity rules do not wrap around at large argument counts
+	r.Sweep("large-arities", int64(len(c13Arities)), func(w *run.Worker, item int64) {
+		a := c13Arities[item]
+		for _, n := range []int{5, 16, 31, 32, 33, 127, 128, 129, 255, 256, 257, 258, 259, 260, 511, 512, 513, 1024} {
+			ok := a.fn == "strcat"
+			for _, form := range []string{"T | where %s > 1", "T | join (R | extend z = %s) on k", "let v = %s; T | take 1"} {
+				src := fmt.Sprintf(form, callText(a.fn, n))
+				if ok {
+					mustCompile(w, src, "arity-ok:"+a.fn)
+				} else {
+					mustFail(w, src, fmt.Sprintf("arity:%s/large", a.fn))
+				}
+			}
+		}
+	})
 	// every corpus program breaks no rule unless it says so itself
 	corpus := gen.Programs()
 	r.Sweep("corpus-compiles", int64(len(corpus)), func(w *run.Worker, item int64) {
